@@ -36,6 +36,16 @@ func runC03(p *Program, r *Report) {
 	c03full(p, r, "C03.full")
 	c03taint(p, r, "C03.taint")
 	c01dict(p, r, "C03.flate")
+	// frames that arrive in the same packet as the handshake (server side)
+	sub := newReport(r.Prop, r.Tier)
+	c11gate(p, sub, "C03.handoff")
+	for _, o := range sub.Obls {
+		if o.Rule == "C11.buf" {
+			o.Rule = "C03.handoff"
+			o.Key = strings.Replace(o.Key, "C11.buf", "C03.handoff", 1)
+			r.add(o)
+		}
+	}
 }
 
 // opcodeCandidates: regions of the opcode line cut at every constant compared in the functions.
@@ -335,6 +345,13 @@ func c03hdr(p *Program, r *Report, rule string) {
 		}
 		pl := get("payloadLength").Key()
 		rf := pa.Calls("io.ReadFull")
+		// a success path has seen every one of its reads succeed
+		for _, e := range append(append([]*Event{}, rf...), pa.Calls("(*bufio.Reader).ReadByte")...) {
+			if v, known := pa.Decided("(" + e.Res.Key() + "#1 == nil)"); !known || !v {
+				okBits = false
+				detail = append(detail, "header returned although the error of "+e.Callee+" at "+p.InstrPos(e.Instr)+" was not found nil (a failed read is ignored)")
+			}
+		}
 		marker := "(" + b0 + " &^ 128)"
 		switch {
 		case keyIs(get("payloadLength"), "convert:int64("+marker+")"):
@@ -375,10 +392,14 @@ func c03hdr(p *Program, r *Report, rule string) {
 				detail = append(detail, "64-bit length without marker==127 and a full read of 8 bytes")
 			}
 		default:
-			// marker > 127 is infeasible for a 7-bit value; payloadLength stays 0
-			if _, isZero := avInt(get("payloadLength")); !isZero {
+			// marker > 127 is infeasible for a 7-bit value; payloadLength stays 0 — only on that (dead) path
+			_, isZero := avInt(get("payloadLength"))
+			lt, k1 := decidedLike(pa, marker+" < 126")
+			e6, k2 := decidedLike(pa, marker+" == 126")
+			e7, k3 := decidedLike(pa, marker+" == 127")
+			if !isZero || !(k1 && !lt && k2 && !e6 && k3 && !e7) {
 				okBits = false
-				detail = append(detail, "payloadLength = "+pl)
+				detail = append(detail, "payloadLength = "+pl+" on a path with a valid length marker")
 			}
 		}
 		// negative length must have been excluded
